@@ -1736,7 +1736,7 @@ def cone_beam_geometry(space, src_radius, det_radius, num_angles=None,
         # in that edge
         half_cone_angle = max(np.arctan(abs(space.partition.min_pt[2]) / dist),
                               np.arctan(abs(space.partition.max_pt[2]) / dist))
-        h = 2 * np.sin(half_cone_angle) * (rs + rd)
+        h = 2 * np.tan(half_cone_angle) * (rs + rd)
 
         # Use the vertical spacing from the reco space, corrected for
         # magnification at the "back" of the object, i.e., where it is
